@@ -1158,7 +1158,10 @@ fn evaluate(plan: &PlanB, kernel: &Arc<Kernel>, sh: &Sh, sent_at_ns: &[u64], _en
         let may_be_silent = !q.tcp && (expect == Expect::Refused || (matches!(expect, Expect::Forward(_)) && plan.queries.iter().any(|o| key_of(o) == key_of(q) && o.ans.rcode & 0xf == 5)));
         if q.liveness_probe {
             res.probe("C05.liveness_probe_after_hostile_input");
-            if responses.is_empty() {
+            /* (a probe whose proper answer is a REFUSED over UDP - RD clear under a forward
+             * route - may be met with silence by the REFUSED limiter, whose buckets are shared
+             * between sources: that is C16's business, not a dead service) */
+            if responses.is_empty() && !may_be_silent {
                 res.violate("C05", if q.tcp { "C05.dns_service_stopped_answering.tcp" } else { "C05.dns_service_stopped_answering.udp" }, format!("well-formed query {} ({} from {}) sent {} got no response", q.qname.to_text(), if q.tcp { "TCP" } else { "UDP" }, q.src_ip, if plan.shape == "cookie" { "after a day and a half of uptime" } else { "1.5 s after a hostile input" }), qi);
             }
         }
